@@ -540,10 +540,12 @@ class SCFG(Sized):
         # an arc through the inserted block instead.
         for name in predecessors:
             block = self.graph.pop(name)
-            jt = list(block.jump_targets)
+            # Operate on all jump targets so that declared backedges are kept,
+            # arcs that are backedges are not rerouted.
+            jt = list(block._jump_targets)
             if successors:
                 for s in successors:
-                    if s in jt:
+                    if s in jt and s not in block.backedges:
                         if new_name not in jt:
                             jt[jt.index(s)] = new_name
                         else:
